@@ -79,7 +79,7 @@ def runHistory (n : Nat) : App → List AOp → List String → List String
 /-! ### C03 conversations
 
   box c03 <op> ; <op> ; ...
-      ops:  send K|D <pyval> | echo <pyval> | make <k> | forget | tables <nA> <nB>
+      ops:  send K|D <pyval> | echo <pyval> | make <k> | raw <label tree> | forget | tables <nA> <nB>
       pyval:  plain value text | ( pyval .. ) | R<k> (own object) | Z<k> <plain> (subclass instance) | P<k> (proxy held)
       answer per op:  <label tree> => <arrived value> [=> <label tree back> => <arrived value>]
       label tree:  V <plain> | T( .. ) | L<k> | M<k> | ?<tag>
@@ -124,7 +124,27 @@ partial def showPy (s : Side) : PyVal → String
 def showSeen (seen : Seen) : String :=
   " => ".intercalate ((List.zip seen.labels seen.values).map (fun (l, (y, s)) => showLabel l ++ " => " ++ showPy s y))
 
+partial def parseLabelText : List String → Option (Label × List String)
+  | [] => none
+  | tok :: rest =>
+    match tok.toList with
+    | ['V'] => (parseVal rest).map (fun (v, r) => (.value v, r))
+    | ['T', '('] => (go rest #[]).map (fun (ls, r) => (.tuple ls, r))
+    | 'L' :: cs => (parseNatChars cs).map (fun k => (.localRef k, rest))
+    | 'M' :: cs => (parseNatChars cs).map (fun k => (.remoteRef k, rest))
+    | '?' :: cs => (parseNatChars cs).map (fun k => (.other k, rest))
+    | _ => none
+where
+  go : List String → Array Label → Option (List Label × List String)
+    | [], _ => none
+    | tok :: rest, acc =>
+      if tok = ")" then some (acc.toList, rest)
+      else match parseLabelText (tok :: rest) with
+        | some (l, r) => go r (acc.push l)
+        | none => none
+
 inductive COp where
+  | raw (l : Label)
   | send (keep : Bool) (x : PyVal)
   | echo (x : PyVal)
   | make (k : Nat)
@@ -142,6 +162,9 @@ def parseCOp : List String → Option COp
     | some (x, []) => some (.echo x)
     | _ => none
   | ["make", k] => (parseNatChars k.toList).map .make
+  | "raw" :: toks => match parseLabelText toks with
+    | some (l, []) => some (.raw l)
+    | _ => none
   | ["forget"] => some .forget
   | ["tables", a, b] => match parseNatChars a.toList, parseNatChars b.toList with
     | some a, some b => some (.tables a b)
@@ -156,6 +179,9 @@ def stepConv (c : Conv) : COp → String × Conv
     | .ok (seen, c') => (showSeen seen, c')
     | .error e => ("err " ++ e.name, c)
   | .make k => match c.make k with
+    | .ok (seen, c') => (showSeen seen, c')
+    | .error e => ("err " ++ e.name, c)
+  | .raw l => match c.raw l with
     | .ok (seen, c') => (showSeen seen, c')
     | .error e => ("err " ++ e.name, c)
   | .forget => ("ok", c.forget)
